@@ -121,4 +121,61 @@ WAlgoSeries(s, reqs) ==
 WAlgoOut(series, reqs) ==
     LET all == [i \in DOMAIN series |-> [labels |-> series[i].labels, chunks |-> WAlgoSeries(series[i], reqs)]]
     IN SelectSeq(all, LAMBDA x : x.chunks # <<>>)
+(* ======================= phase 2: relabel + deletion, change log, dry run ======================= *)
+(* `thanos tools bucket rewrite` applies the relabel modifier first and the deletion modifier to its    *)
+(* result.  A series record then carries `to`: the label set relabelling gives it (<<>> = dropped);    *)
+(* series with the same `to` are merged into one.  The deletion requests select on the NEW labels.     *)
+(* C48 lifted to the composition: of the samples of the merged series exactly the requested ones are   *)
+(* removed, nothing is invented, dropped series are gone.  When two merged series have a sample at the *)
+(* same time either value may be kept (one sample per time).                                           *)
+WTargets(series) == { LabelSet(series[i].to) : i \in { j \in DOMAIN series : series[j].to # <<>> } }
+WToSeq(series, lset) == series[CHOOSE i \in DOMAIN series : LabelSet(series[i].to) = lset].to
+WMergedSamples(series, lset) == UNION { SeriesSamples(series[i]) : i \in { j \in DOMAIN series : LabelSet(series[j].to) = lset /\ series[j].to # <<>> } }
+
+WViolationsR(series, reqs, out) ==
+    LET outL == [a \in DOMAIN out |-> LabelSet(out[a].labels)]
+        PerTarget(lset) ==
+          LET ls == WToSeq(series, lset)
+              mine == WMergedSamples(series, lset)
+              left == SamplesWith(out, outL, lset)
+              leftT == { x[1] : x \in left }
+              may == { r \in DOMAIN reqs : WMatches(reqs[r], ls) }
+              must == { r \in may : WCarriesAll(reqs[r], ls) }
+          IN
+          (IF \A x \in mine : x[1] \in leftT \/ \E r \in may : WInIntervals(reqs[r], x[1])
+             THEN {} ELSE {"sample-outside-requests-kept"})
+          \cup (IF \A x \in mine : x[1] \notin leftT \/ \A r \in must : ~WInIntervals(reqs[r], x[1])
+                  THEN {} ELSE {"requested-sample-removed"})
+          \cup (IF left \subseteq mine THEN {} ELSE {"only-block-data-written"})
+    IN
+    UNION { PerTarget(l) : l \in WTargets(series) }
+    \cup (IF \A a \in DOMAIN out : outL[a] \in WTargets(series) THEN {} ELSE {"only-block-data-written"})
+    \cup (IF /\ \A a, b \in DOMAIN out : a # b => outL[a] # outL[b]
+           /\ \A c \in DOMAIN out : LET f == Flat(out[c].chunks) IN \A k \in 1..(Len(f) - 1) : f[k].t < f[k + 1].t
+          THEN {} ELSE {"each-kept-sample-once-in-order"})
+
+(* The change log (ChangeLogger.DeleteSeries entries: [labels, ivs]) of a deletion-only rewrite: every  *)
+(* series that lost a sample is logged, and each lost sample's time lies in a logged interval of its   *)
+(* series.  (The log may name more: it records interval x chunk overlaps, also where no sample was.)    *)
+WLogClauses(series, out, log) ==
+    LET outL == [a \in DOMAIN out |-> LabelSet(out[a].labels)]
+        Lost(s) == { x[1] : x \in SeriesSamples(s) \ SamplesWith(out, outL, LabelSet(s.labels)) }
+        Logged(s) == UNION { { log[k].ivs[j] : j \in DOMAIN log[k].ivs } : k \in { m \in DOMAIN log : LabelSet(log[m].labels) = LabelSet(s.labels) } }
+    IN IF \A i \in DOMAIN series : \A t \in Lost(series[i]) : \E iv \in Logged(series[i]) : iv.lo <= t /\ t <= iv.hi
+         THEN {} ELSE {"removed-samples-are-in-the-change-log"}
+(* A dry run reports the same changes and writes nothing. *)
+WDryRunClauses(log, dry) ==
+    (IF { <<LabelSet(log[k].labels), log[k].ivs>> : k \in DOMAIN log } = { <<LabelSet(dry.log[k].labels), dry.log[k].ivs>> : k \in DOMAIN dry.log }
+       THEN {} ELSE {"dry-run-reports-the-same-changes"})
+    \cup (IF dry.wrote THEN {"dry-run-writes-nothing"} ELSE {})
+
+(* algorithm level: the relabel modifier merges the series of one target into a series with a single   *)
+(* chunk (the model's series are far below the 120-sample chunk cut), one sample per time; then the    *)
+(* deletion algorithm runs on it.  Used for model conformance on times only.                           *)
+WAlgoMerged(series) ==
+    LET mk(lset) == LET pts == { x[1] : x \in WMergedSamples(series, lset) }
+                        ts == SortSeq(SetToSeq(pts), LAMBDA a, b : a < b)
+                    IN [labels |-> WToSeq(series, lset), chunks |-> << [k \in DOMAIN ts |-> [t |-> ts[k], v |-> 0]] >>]
+    IN SetToSeq({ mk(l) : l \in WTargets(series) })
+WTimesOf(ss) == { <<LabelSet(ss[i].labels), [c \in DOMAIN ss[i].chunks |-> [k \in DOMAIN ss[i].chunks[c] |-> ss[i].chunks[c][k].t]]>> : i \in DOMAIN ss }
 =============================================================================
